@@ -31,8 +31,10 @@ fn do_instr(start: usize, hay: &str, needle: &str) -> Result<i32, RuntimeError> 
     } else {
         let mut i: usize = start - 1;
         while i + needle.len() <= hay.len() {
-            let sub = hay.get(i..(i + needle.len())).unwrap();
-            if sub == needle {
+            // compare bytes, because a sub-slice of a str panics or is None
+            // if it does not fall on a character boundary
+            let sub = &hay.as_bytes()[i..(i + needle.len())];
+            if sub == needle.as_bytes() {
                 return Ok((i as i32) + 1);
             }
             i += 1;
